@@ -6,6 +6,7 @@ import (
 
 	"golang.org/x/tools/go/ssa"
 
+	"verif/internal/eng"
 	"verif/internal/ir"
 )
 
@@ -43,6 +44,31 @@ func runC04(c *Ctx) {
 		return
 	}
 	L := c.Locks()
+	c.Rule("C04.O15", "E1", "the write queue and the write-interest flag are read and written only with Conn.mux held (a queue-emptiness test outside the mutex can miss the remainder a concurrent short write is about to queue, and skip the only flush an edge-triggered event will ever cause)", 20)
+	{
+		table := []eng.Guard{
+			{Field: fConnWriteList, Lock: fConnMux, Reads: true, Writes: true},
+			{Field: fConnIsWAdded, Lock: fConnMux, Reads: true, Writes: true},
+		}
+		exc := []eng.Exception{
+			{Fn: "(*nbio.poller).addDialer", Field: fConnIsWAdded, Reason: "set before the descriptor's EPOLL_CTL_ADD (C04.O3 checks the order): no event and no other goroutine can reach the connection yet"},
+		}
+		if td := c.Core().Teardown; td != nil {
+			exc = append(exc, eng.Exception{Fn: c.P.FuncName(td), Field: fConnWriteList, Reason: "teardown runs once, after closed was set under the mutex; every other accessor tests closed under the mutex first (C01.O1)"})
+		}
+		for _, s := range eng.CheckGuarded(L, c.nbioFuncs(), table, exc) {
+			key := fmt.Sprintf("%s: %s %s", c.P.FuncName(s.Fn), rw(s.Access.Write), s.Access.Field)
+			if !s.Held && s.Access.Addr != nil && c.freshUnpublished(s.Fn, s.Access.In, s.Access.Addr.X) {
+				c.OK("C04.O15", key, c.Pos(s.Access.In), "initialisation of a connection allocated in this function and not yet registered with a poller")
+				continue
+			}
+			if !s.Held && s.Reason != "" {
+				c.OK("C04.O15", key, c.Pos(s.Access.In), "exception: "+s.Reason)
+				continue
+			}
+			c.Cond(s.Held, "C04.O15", key, c.Pos(s.Access.In), "Conn.mux held", s.Access.Field+" accessed without Conn.mux at "+c.Pos(s.Access.In))
+		}
+	}
 	_, enqueue := c.writeSinks()
 	isArm := func(in ssa.Instruction) bool {
 		for _, a := range core.ArmFns {
